@@ -367,6 +367,18 @@ row(props=["C18"], func=IDL + "(JavaIdentifierListener).EnterExpression", params
 row(props=["C02"], func=FL + "(JavaFullListener).EnterLocalVariableDeclaration", params=["s", "ctx"], kind="emits", target="mapstore:localVars", tag={}, total=1, each={"as": "d"},
     when="TypeType(ctx) != nil", fields={"key": "GetText(Identifier(VariableDeclaratorId(d)))", "value": "GetText(TypeType(ctx))"},
     what="every declarator of a local variable declaration is registered with the declared type, whatever modifiers (final, annotations) precede the type")
+IBD = "InterfaceCommonBodyDeclaration(ctx)"
+IIDCOL = "GetColumn(GetStart(Identifier(%s)))" % IBD
+INAME = "GetText(Identifier(%s))" % IBD
+for fld, ex in [("Position.StartLine", "GetLine(GetStart(ctx))"), ("Position.StartLinePosition", IIDCOL), ("Position.StopLine", "GetLine(GetStop(ctx))"),
+                ("Position.StopLinePosition", IIDCOL + " + len(" + INAME + ")"), ("Name", INAME)]:
+    row(props=["C05", "C01"], func=FL + "(JavaFullListener).EnterInterfaceMethodDeclaration", params=["s", "ctx"], kind="callarg", callee=FL + "buildMethodParameters", arg=1, field=fld, expr=ex,
+        what="interface method entry, like a class method's: " + fld)
+MRID = "Identifier(ctx)"
+for fld, ex in [("Position.StartLine", "GetLine(GetStart(%s))" % MRID), ("Position.StartLinePosition", "GetColumn(GetStart(%s))" % MRID), ("Position.StopLine", "GetLine(GetStart(%s))" % MRID),
+                ("Position.StopLinePosition", "GetColumn(GetStart(%s)) + len(GetText(%s))" % (MRID, MRID)), ("FunctionName", "GetText(%s)" % MRID)]:
+    row(props=["C05", "C02"], func=FL + "(JavaFullListener).EnterExpression", params=["s", "ctx"], kind="callarg", callee=FL + "sendResultToMethodCallMap", arg=0, field=fld, expr=ex,
+        what="method reference Type::name: the recorded position selects the name: " + fld)
 
 json.dump({"e5": rows}, open(os.path.join(os.path.dirname(os.path.dirname(os.path.abspath(__file__))), "spec", "e5.json"), "w"), indent=1, ensure_ascii=False)
 print(len(rows), "rows")
